@@ -259,6 +259,7 @@ pub fn cmd_record_mt(args: &HashMap<String, String>) -> i32 {
     let seed: u64 = args.get("seed").map(|s| s.parse().unwrap()).unwrap_or(1);
     let ncommitters: usize = args.get("committers").map(|s| s.parse().unwrap()).unwrap_or(2);
     let nreaders: usize = args.get("readers").map(|s| s.parse().unwrap()).unwrap_or(3);
+    let max_reads: usize = args.get("reads").map(|s| s.parse().unwrap()).unwrap_or(600);
     let u = Arc::new(Universe::new(cols, nkeys, 1, seed, !args.contains_key("large")));
     let root = scratch_root();
     let dir: PathBuf = fresh_dir(&root, "mt");
@@ -292,7 +293,7 @@ pub fn cmd_record_mt(args: &HashMap<String, String>) -> i32 {
             let mut rng = SmallRng::seed_from_u64(seed * 77 + r as u64);
             let t = tid();
             let mut n = 0usize;
-            while !stop.load(Ordering::SeqCst) && n < 4000 {
+            while !stop.load(Ordering::SeqCst) && n < max_reads {
                 n += 1;
                 let c = rng.gen::<usize>() % u.cols.len();
                 let k = 1 + rng.gen::<usize>() % u.nkeys;
